@@ -271,7 +271,7 @@ func (Sim) Run(raw json.RawMessage, prop string, keep bool) (res simfw.Result) {
 		case "data_path_abs", "data_path_http":
 			doc, err = loader.LoadFromDataWithPath(content[0], urlOf[0])
 		case "file_rel", "file_abs":
-			doc, err = loader.LoadFromFile(AbsLoc(&s, 0))
+			doc, err = loader.LoadFromFile(urlOf[0].Path) // a file path, not a URL: no escaping
 		default:
 			doc, err = loader.LoadFromURI(urlOf[0])
 		}
@@ -428,6 +428,39 @@ func (Sim) Run(raw json.RawMessage, prop string, keep bool) (res simfw.Result) {
 		} else {
 			res.Probe("load-err")
 		}
+	}
+	// ---- the switch turned off on a used Loader, references resolved through ResolveRefsIn ----
+	if s.ThenResolveOff && s.External {
+		first := len(st.Events)
+		log.Add("sim", "load", "switch off, ResolveRefsIn on the same loader", "")
+		func() {
+			defer func() {
+				if p := recover(); p != nil {
+					res.Probe("loader-panic")
+				}
+			}()
+			zzsimrt.ResetMapOrder(s.MapSeed)
+			defer zzsimrt.ResetMapOrder(0)
+			loader.IsExternalRefsAllowed = false
+			doc := &openapi3.T{}
+			if err := doc.UnmarshalJSON(content[0]); err != nil {
+				return
+			}
+			var loc *url.URL
+			if rootHasLocation {
+				loc = urlOf[0]
+			}
+			err := loader.ResolveRefsIn(doc, loc)
+			log.Add("sim", "resolved", "", fmt.Sprintf("err=%v", err != nil))
+		}()
+		res.Probe("then-resolve-refs-switch-off")
+		for _, ev := range st.Events[first:] {
+			if !(rootHasLocation && ev.Loc == rootLoc) {
+				res.Violate("C11", "switch-off", "C11/"+sig("read-after-switch-turned-off"), fmt.Sprintf("the switch was turned off on a used Loader and references were resolved again (ResolveRefsIn), yet the loader read %q via %s", ev.Loc, ev.Via))
+				break
+			}
+		}
+		loader.IsExternalRefsAllowed = s.External
 	}
 	// ---- a further in-memory load on the same Loader: it may not read anything ----
 	if s.ThenMemory != nil {
